@@ -1242,6 +1242,20 @@ class WrapProp(core.Prop):
         for wi in range(n_worlds):
             kind = kinds[wi % len(kinds)]
             world = gridw.gen_world(rng, max_side=4, max_agents=5, kinds=actor_kinds, dead_prob=0.1)
+            if rng.random() < 0.3:
+                # twins: two (or three) agents of exactly the same kind, sharing one action-space container
+                k = rng.randrange(len(world["agents"]))
+                for _ in range(rng.randint(1, 2)):
+                    if len(world["agents"]) < 6:
+                        world["agents"].append(dict(world["agents"][k], init_pos=None))
+                        if world.get("state") is not None:
+                            occ = {tuple(s["pos"]) for s in world["state"] if s["health"][0] > 0}
+                            free = [(r, c) for r in range(world["rows"]) for c in range(world["cols"]) if (r, c) not in occ]
+                            if free and world["state"][k]["health"][0] > 0:
+                                world["state"].append(dict(world["state"][k], pos=list(rng.choice(free))))
+                            else:
+                                world["state"].append(dict(world["state"][k], health=[0, 1]))
+                world["shared_aspace"] = True
             encs = sorted({a["enc"] for a in world["agents"]})
             desc = {"op": "wactor", "world": world, "actor": kind, "tape": [rng.randrange(1000) for _ in range(60)]}
             if kind in ATTACKERS:
